@@ -389,7 +389,7 @@ func (e *Env) loadFixture() {
 		e.mustStep(ls)
 		return
 	}
-	for _, db := range dbs {
+	writeRows := func(db string) {
 		for i := 0; i < 3; i++ {
 			e.mustWrite(db, fmt.Sprintf("probe,host=a v=%d %d", i, tsBase+int64(i)*1e9))
 		}
@@ -401,16 +401,24 @@ func (e *Env) loadFixture() {
 				Body64: base64.StdEncoding.EncodeToString(promWriteBody(promMetric, promTS, true))})
 		}
 	}
-	// wait until the new series are visible to queries (index flush lag)
-	deadline := time.Now().Add(30 * time.Second)
 	for _, db := range dbs {
+		writeRows(db)
+	}
+	// wait until the new series are visible to queries (index flush lag); the rows are idempotent and written again when
+	// they do not show up (a busy machine: an acknowledged first write into a fresh shard has been seen to stay invisible)
+	for _, db := range dbs {
+		start := time.Now()
+		rewritten := 0
 		for {
 			r, err := e.adminQuery(db, rowsQuery)
 			if err == "" && len(r.Results) == 1 && totalCount(r) == 7 { // 3 probe + ctlprobe + ctldel + 2 Prometheus samples
 				break
 			}
-			if time.Now().After(deadline) {
-				bb.Fatal("fixture rows of %s not visible: %v %s", db, r, err)
+			if el := time.Since(start); el > 120*time.Second {
+				bb.Fatal("fixture rows of %s not visible after %v: %v %s", db, el, r, err)
+			} else if el > time.Duration(15*(rewritten+1))*time.Second {
+				rewritten++
+				writeRows(db)
 			}
 			time.Sleep(100 * time.Millisecond)
 		}
@@ -594,8 +602,10 @@ func (e *Env) probe(deep bool, n int, targets []Target) Snapshot {
 			sn["login/"+u.Name] = fmt.Sprint(resp.Status)
 		}
 		// switches reachable through ctrl: reads and writes still served (an overwrite of a constant point changes no count)
-		w := e.Do(writeReq("db1", fmt.Sprintf("ctlprobe,host=a v=1 %d", tsBase)), adminCred())
-		sn["switch/write"] = fmt.Sprint(w.Status)
+		if !e.Logkeep { // (no row writes in the log-keeper configuration)
+			w := e.Do(writeReq("db1", fmt.Sprintf("ctlprobe,host=a v=1 %d", tsBase)), adminCred())
+			sn["switch/write"] = fmt.Sprint(w.Status)
+		}
 	}
 	return sn
 }
